@@ -4,7 +4,7 @@
    Gen/Generated.v on this run; the four [tie_*] facts are decided by computation against it. *)
 From Coq Require Import List NArith Bool.
 From Conductor Require Import Lib.Regex Lib.RegexBisim Lib.PyRegex Lib.Str
-  Gen.Generated Model.Ident Model.Env Proofs.IdentSpec Proofs.IdentProofs Proofs.PathString.
+  Gen.Generated Model.Ident Model.Env Proofs.IdentSpec Proofs.IdentProofs Proofs.PathString Proofs.GenTieIdent.
 Import ListNotations.
 Local Open Scope N_scope.
 
@@ -40,6 +40,33 @@ Theorem C20_parse_print_parse : forall req s i,
   from_str req s = Some i -> WfIdent i /\ from_str true (ident_repr i) = Some i.
 Proof. exact (parse_print_parse tie_ident). Qed.
 Print Assumptions C20_parse_print_parse.
+
+(* "an identifier has one canonical form": the dictionaries and sets of the loader, the planner and the version index are
+   keyed by TaskIdentifier objects, i.e. by __eq__ and __hash__.  As TRANSLATED from the working tree on every run
+   (the gen_ident definitions of Gen.Generated): the printed form is "//" + the path's components joined by "/" + ":" + the name, equality
+   compares path and name, and the hash is a function of the printed form.  Hence equal identifiers -- however they were
+   spelled: `//data/:prep`, `//data:prep`, `data:prep` -- are ONE key (same hash for every hash function of strings), and
+   two well-formed identifiers print alike only if they are equal, so different identifiers are different keys.
+   (Seed C01/j cached the hash of the spelling an identifier was parsed from.) *)
+Theorem C20_equal_identifiers_are_one_key :
+  (forall i, ident_repr i = gen_ident_repr (join gen_ident_path_sep (ipath i)) (iname i)) /\
+  (forall a b, ident_eqb a b = gen_ident_eq (paths_eqb (ipath a) (ipath b)) (str_eqb (iname a) (iname b))) /\
+  (forall (h : str -> N) a b, ident_eqb a b = true -> h (ident_repr a) = h (ident_repr b)) /\
+  (forall req s1 s2 a b, from_str req s1 = Some a -> from_str req s2 = Some b ->
+     (ident_repr a = ident_repr b <-> ident_eqb a b = true)).
+Proof.
+  split; [exact ident_repr_tie|]. split; [exact ident_eq_tie|]. split; [exact (eq_implies_same_hash eq_refl)|].
+  intros req s1 s2 a b Ha Hb. split.
+  - intro E. destruct (parse_print_parse tie_ident req s1 a Ha) as [_ Pa]. destruct (parse_print_parse tie_ident req s2 b Hb) as [_ Pb].
+    rewrite E in Pa. rewrite Pa in Pb. injection Pb as ->. apply Proofs.SchemaProofs.ident_eqb_spec. reflexivity.
+  - intro E. apply Proofs.SchemaProofs.ident_eqb_spec in E. now subst.
+Qed.
+Print Assumptions C20_equal_identifiers_are_one_key.
+
+Example C20_two_spellings_one_key :
+  exists a b, from_str true [47;47;100;47;58;112] = Some a /\ from_str true [47;47;100;58;112] = Some b /\
+              ident_eqb a b = true /\ ident_repr a = [47;47;100;58;112].
+Proof. eexists. eexists. repeat split; vm_compute; reflexivity. Qed.
 
 (* ':name' is accepted exactly for valid names and resolves against the listing file's directory *)
 Theorem C20_relative : forall s dir i,
